@@ -121,7 +121,7 @@ func scribble(s *interpreter.State) {
 	for _, st := range [][][]byte{s.DataStack, s.AltStack, s.ElseStack, s.SavedFirstStack} {
 		for i := range st {
 			for j := range st[i] {
-				st[i][j] ^= 0xff
+				st[i][j] += 0x5b // not self-inverse: an even number of callbacks must not restore the bytes
 			}
 		}
 	}
@@ -130,6 +130,9 @@ func scribble(s *interpreter.State) {
 	}
 	for i := range s.Scripts {
 		for j := range s.Scripts[i] {
+			for k := range s.Scripts[i][j].Data {
+				s.Scripts[i][j].Data[k] += 0x5b // push data is future stack data
+			}
 			s.Scripts[i][j] = interpreter.ParsedOpcode{}
 		}
 	}
